@@ -27,7 +27,7 @@ Step(ev) ==
         /\ LocalWriteWith(ev.k, ev.place, ev.st) /\ run' = run
         /\ (IF ev.st[2] # Me THEN Verdict("the write produced no delta or a delta of another replica") ELSE Judge(ev))
     [] ev.a = "remote" -> RemoteAny(ev.k, ev.t) /\ run' = run /\ Judge(ev)
-    [] ev.a = "checkpoint" -> Checkpoint /\ run' = run /\ Judge(ev)
+    [] ev.a = "checkpoint" -> CheckpointWith("trim" \in DOMAIN ev /\ ev.trim) /\ run' = run /\ Judge(ev)
     [] ev.a = "crash" -> Crash /\ run' = run
     [] ev.a = "recover" -> Recover /\ run' = run /\ Judge(ev)
     [] OTHER -> Skip /\ Verdict("panic in code under test")
